@@ -65,6 +65,9 @@ def within_one_unit(text, x, P):
         v = Fraction(text.replace('e', 'E'))
     except (ValueError, ZeroDivisionError):
         return 'text %r is not a number' % text
+    mant = text.lower().split('e')[0].lstrip('+-').replace('.', '').lstrip('0').rstrip('0')
+    if len(mant) > P:
+        return 'text %r carries %d significant digits, %d were promised' % (text, len(mant), P)
     fx = Fraction(x)
     if fx == 0:
         return None if v == 0 else 'zero printed as %r' % text
@@ -195,3 +198,15 @@ def streams(tier, rng):
            'oracle': lambda c, o: ([] if (o.startswith('X') or len(o.split(' ')) != 4 or b2d(info[c][1]) != b2d(info[c][1]) or abs(b2d(info[c][1])) == float('inf')) else
                                    [('custom-digits:ecvt-accuracy' if e.startswith('[ecvt') else 'custom-digits', 'custom build SCPI_DoubleToStr: ' + e) for e in [within_one_unit(vf.unhx(o.split(' ')[1]).decode('latin1'), b2d(info[c][1]), 15)] if e]),
            'nontrivial': lambda c, o: c}
+    # SCPI_FloatToStr on the same build: six significant digits, no more and no fewer
+    fcases = [c for c in cases if c.startswith('F2S') and c.endswith(' 64')][::2]
+
+    def foracle(c, o):
+        if o.startswith('X') or len(o.split(' ')) != 4:
+            return []
+        x = b2f(info[c][1])
+        if x != x or abs(x) == float('inf'):
+            return []
+        e = within_one_unit(vf.unhx(o.split(' ')[1]).decode('latin1'), x, 6)
+        return [('custom-digits', 'custom build SCPI_FloatToStr: ' + e)] if e else []
+    yield {'name': 'custom-build-float-tostr', 'flavor': 'dtostre', 'cases': fcases, 'model': False, 'oracle': foracle, 'nontrivial': lambda c, o: c}
